@@ -7,7 +7,7 @@ import sys
 from hashlib import sha256
 from six import PY2, int2byte, b, next
 from . import der
-from ._compat import normalise_bytes
+from ._compat import normalise_bytes, str_idx_as_int
 
 # RFC5480:
 #   The "unrestricted" algorithm identifier is:
@@ -158,7 +158,7 @@ def randrange_from_seed__truncate_bytes(seed, order, hashmod=sha256):
     if extrabits:
         _bytes += 1
     base = hashmod(seed).digest()[:_bytes]
-    base = "\x00" * (_bytes - len(base)) + base
+    base = b("\x00") * (_bytes - len(base)) + base
     number = 1 + int(binascii.hexlify(base), 16)
     assert 1 <= number < order
     return number
@@ -170,10 +170,12 @@ def randrange_from_seed__truncate_bits(seed, order, hashmod=sha256):
     bits = int(math.log(order - 1, 2) + 1)
     maxbytes = (bits + 7) // 8
     base = hashmod(seed).digest()[:maxbytes]
-    base = "\x00" * (maxbytes - len(base)) + base
+    base = b("\x00") * (maxbytes - len(base)) + base
     topbits = 8 * maxbytes - bits
     if topbits:
-        base = int2byte(ord(base[0]) & lsb_of_ones(topbits)) + base[1:]
+        base = (
+            int2byte(str_idx_as_int(base, 0) & lsb_of_ones(topbits)) + base[1:]
+        )
     number = 1 + int(binascii.hexlify(base), 16)
     assert 1 <= number < order
     return number
